@@ -1,5 +1,5 @@
 (** C06 - struct fields keep WGSL order, names and element types. *)
-From W2W Require Import Wf StructSpec C06Spec C06Proof.
+From W2W Require Import Wf StructSpec C06Spec C06Proof C06Named.
 
 (** For every wf module the generator accepts and every option set: each emitted struct lists the
     non-builtin members in order under the same names; a trailing runtime-sized array becomes a
@@ -17,6 +17,23 @@ Theorem C06_holds_fields_kf : forall m src inc o out_,
   wf m = true -> gen m src inc o = Ok out_ -> C06_fields_ok true m o out_ = true.
 Proof. intros m src inc o out_ Hwf Hgen. apply (C06_fields_gen m src inc o out_ Hwf Hgen). Qed.
 Print Assumptions C06_holds_fields_kf.
+
+(** Nested structs refer to an emitted struct of the same name. Premise [wf_io_structs] (a WGSL rule, evaluated
+    on every case): a struct emitted only because it is an entry-point parameter has no struct-typed member. *)
+Theorem C06_holds_named : forall m src inc o out_,
+  wf m = true -> wf_io_structs m = true -> gen m src inc o = Ok out_ -> C06_named_ok out_ = true.
+Proof. exact C06_named_gen. Qed.
+Print Assumptions C06_holds_named.
+
+(** The full statement, outside the known-finding class. *)
+Theorem C06_holds : forall m src inc o out_,
+  wf m = true -> wf_io_structs m = true -> kf_nonsquare m o = false -> gen m src inc o = Ok out_ ->
+  C06_ok m o out_ = true.
+Proof.
+  intros m src inc o out_ Hwf Hio Hkf Hgen. unfold C06_ok.
+  rewrite (C06_holds_fields m src inc o out_ Hwf Hkf Hgen), (C06_named_gen m src inc o out_ Hwf Hio Hgen). reflexivity.
+Qed.
+Print Assumptions C06_holds.
 
 (** The full statement is FALSE of the (faithful) model: known finding, witness mat2x4<f32> under plain
     arrays is emitted as [[f32; 2]; 4] (element counts transposed w.r.t. the WGSL column order). *)
